@@ -244,6 +244,240 @@ def replay_join(ctx, cfgname, j, idx):
     return True
 
 
+# ------------------------------------------------------------------ Part "queue"
+class FaultyQueue(queue.Queue):
+    """the real queue.Queue; `fault` (an exception object) is raised once by the next get() / put(); a get() that would block raises"""
+    fault = None
+    def get(self, *a, **k):
+        if self.fault is not None:
+            f, self.fault = self.fault, None; raise f
+        if self.qsize() == 0: raise RuntimeError("get() on an empty queue would block for ever")
+        return super().get(*a, **k)
+    def put(self, *a, **k):
+        if self.fault is not None:
+            f, self.fault = self.fault, None; raise f
+        return super().put(*a, **k)
+
+
+def replay_queue(ctx, j, idx):
+    from coba.pipes import QueueSource, QueueSink
+    pz = None if j["pz"] == "None" else 0
+    q = FaultyQueue()
+    plain_args = j["block"] and pz is None and idx % 2 == 0           # the documented defaults, given or not
+    srcs = [QueueSource(q) if plain_args else QueueSource(q, block=j["block"], poison=pz) for _ in range(2)]
+    sinkA = QueueSink(q) if idx % 2 == 0 else QueueSink(q, foreach=False); sinkB = QueueSink(q, foreach=True)
+    gens = []; injected = None
+    hist = " ".join("%s%s" % (s["op"], "" if s["op"] in ("write", "poison") else ":%s" % (s["arg"] if not isinstance(s["arg"], list) else len(s["arg"]))) for s in j["steps"])
+    rep = dict(block=j["block"], poison=j["pz"], history=hist, behaviour=j)
+    val = lambda x: pz if x == 0 else x
+    for k, st in enumerate(j["steps"]):
+        op = st["op"]; where = "QueueSource(block=%s, poison=%r) step %d %s of [%s]" % (j["block"], pz, k + 1, op, hist)
+        got = None
+        try:
+            if op in ("write", "poison"): r = sinkA.write(val(st["arg"][0])); got = "ok" if r is None else "returned %r" % (r,)
+            elif op == "write_each":
+                items = [val(x) for x in st["arg"]]
+                r = sinkB.write(items if k % 2 == 0 else iter(items)); got = "ok" if r is None else "returned %r" % (r,)
+            elif op == "open": gens.append(srcs[st["arg"] - 1].read()); got = "ok"
+            elif op == "break":
+                injected = {"EOF": EOFError, "Pipe": BrokenPipeError, "Value": ValueError}[st["res"]]("injected"); q.fault = injected; got = st["res"]
+            elif op == "next":
+                try:
+                    x = next(gens[st["arg"] - 1])
+                    got = "poison" if (x is None and pz is None) or (x == 0 and pz == 0 and x is not False) else str(x)
+                except StopIteration:
+                    got = "stop"
+        except BaseException as e:
+            got = "raise" if e is injected else "raises %s: %s" % (type(e).__name__, e)
+        if got != st["res"]:
+            ctx.violation("queue:%s:%s" % (op, "raises" if got.startswith("raise") else "result"), "%s gave %r, expected %r" % (where, got, st["res"]), rep); return False
+        now = [0 if (x is None and pz is None) or (pz == 0 and x == 0) else x for x in list(q.queue)]
+        if now != st["q"]:
+            ctx.violation("queue:%s:queue" % op, "%s: the queue holds %r, expected %r" % (where, now, st["q"]), rep); return False
+        flags = [bool(s._poisoned) for s in srcs]
+        if flags != st["poisoned"]:
+            ctx.violation("queue:%s:poisoned" % op, "%s: the sources' poisoned flags are %r, expected %r" % (where, flags, st["poisoned"]), rep); return False
+    return True
+
+
+# ------------------------------------------------------------------ Part "disk"
+def _text(cs): return "".join("\n" if c == "N" else c for c in cs)
+
+
+def replay_disk(ctx, j, idx):
+    from coba.pipes import DiskSink, DiskSource
+    path = os.path.join(ctx.scratch, "x10_disk_%d.log%s" % (idx, ".gz" if j["gz"] else ""))
+    if os.path.exists(path): os.unlink(path)
+    batch = j["batch"] or None
+
+    def mk():
+        if j["mode"] == "a+" and batch is None and idx % 2 == 0: return DiskSink(path)
+        return DiskSink(path, mode=j["mode"], batch=batch)
+    sink = mk(); depth = 0
+    hist = " ".join(s["op"] if s["op"] != "write" else ("write(%r)" % ("".join(s["arg"]["lines"][0]) if s["arg"]["str"] else ["".join(l) for l in s["arg"]["lines"]])) for s in j["steps"])
+    rep = dict(gz=j["gz"], mode=j["mode"], batch=j["batch"], history=hist, behaviour=j)
+    cfg = "DiskSink(%s, mode=%r, batch=%r)" % ("'f.log.gz'" if j["gz"] else "'f.log'", j["mode"], batch)
+    try:
+        for k, st in enumerate(j["steps"]):
+            op = st["op"]; where = "%s step %d of [%s]" % (cfg, k + 1, hist)
+            try:
+                if op == "write":
+                    lines = ["".join(l) for l in st["arg"]["lines"]]
+                    r = sink.write(lines[0] if st["arg"]["str"] else (lines, tuple(lines), iter(lines))[(idx + k) % 3])
+                    if r is not None: ctx.violation("disk:write:returns", "%s returned %r" % (where, r), rep); return False
+                elif op == "enter":
+                    if sink.__enter__() is not sink: ctx.violation("disk:enter:returns", "%s: `with sink as s` does not give the sink" % where, rep); return False
+                    depth += 1
+                elif op == "exit": sink.__exit__(None, None, None); depth -= 1
+                elif op == "newsink": sink = mk()
+                elif op == "read":
+                    ds0 = None
+                    for loc_s, want in sorted(st["res"].items(), key=lambda kv: int(kv[0])):
+                        loc = int(loc_s)
+                        for inc in (True, False):
+                            ds = DiskSource(path, start_loc=loc, include_loc=inc) if (loc or inc or idx % 2) else DiskSource(path)
+                            if loc == 0 and not inc: ds0 = ds
+                            got = list(ds.read())
+                            exp = [(e["loc"], "".join(e["line"])) for e in want] if inc else ["".join(e["line"]) for e in want]
+                            if got != exp:
+                                ctx.violation("disk:read:%s" % ("loc" if inc and [g[1] for g in got if isinstance(g, tuple)] == [e[1] for e in exp] else "lines"),
+                                              "%s: DiskSource(start_loc=%d, include_loc=%s) on the file %r read %r, expected %r" % (where, loc, inc, _text(st["bytes"]), got, exp), rep); return False
+                    again = list(ds0.read()); first = ["".join(e["line"]) for e in st["res"]["0"]]
+                    if again != first:
+                        ctx.violation("disk:read:second-read", "%s: the same DiskSource read again gave %r, expected %r" % (where, again, first), rep); return False
+            except Exception as e:
+                ctx.violation("disk:%s:raises" % op, "%s raised %s: %s" % (where, type(e).__name__, e), rep); return False
+            # the file after the step
+            if os.path.exists(path) != st["exists"]:
+                ctx.violation("disk:%s:file-exists" % op, "%s: the file %s" % (where, "exists" if os.path.exists(path) else "does not exist"), rep); return False
+            if st["exists"] and not (j["gz"] and depth > 0):
+                raw = open(path, "rb").read()
+                try: data = gzip.decompress(raw) if (j["gz"] and raw) else raw
+                except Exception as e:
+                    ctx.violation("disk:%s:gzip" % op, "%s: the file is not a gzip stream (%s: %s)" % (where, type(e).__name__, e), rep); return False
+                if data.decode("utf-8") != _text(st["bytes"]):
+                    sig = "disk:write:lines-lost" if (op == "write" and len(data) < len(st["bytes"])) else "disk:%s:content" % op
+                    if sig == "disk:write:lines-lost" and j["mode"] == "w" and batch: sig = "disk:write:w-batch:lines-lost"
+                    ctx.violation(sig, "%s: the file holds %r, expected %r" % (where, data.decode("utf-8"), _text(st["bytes"])), rep); return False
+        return True
+    finally:
+        while depth > 0:
+            try: sink.__exit__(None, None, None)
+            except Exception: pass
+            depth -= 1
+        if os.path.exists(path): os.unlink(path)
+
+
+# ------------------------------------------------------------------ Part "list" and the decision tables
+def py(v, fresh_iter=True):
+    """tagged spec value -> Python value"""
+    t = v["t"]
+    if t in ("int", "str", "key"): return v["v"]
+    if t == "none": return None
+    if t == "list": return [py(x) for x in v["v"]]
+    if t == "tuple": return tuple(py(x) for x in v["v"])
+    if t == "iter": return iter([py(x) for x in v["v"]])
+    if t == "dict": return {py(k): py(x) for k, x in v["v"]}
+    raise AssertionError(t)
+
+
+def same(a, b):
+    """type sensitive deep equality (a list is not a tuple, True is not 1)"""
+    if type(a) is not type(b): return False
+    if isinstance(a, (list, tuple)): return len(a) == len(b) and all(same(x, y) for x, y in zip(a, b))
+    if isinstance(a, dict): return a.keys() == b.keys() and all(same(a[k], b[k]) for k in a)
+    return a == b
+
+
+def replay_list(ctx, j, idx):
+    import contextlib
+    from coba.pipes import ListSink, ListSource, IterableSource, LambdaSource, LambdaSink, ConsoleSink, NullSink, NullSource, IdentitySource
+    A = ListSink(); B = ListSink(A.items, foreach=True)
+    ls = ListSource(A.items); its = IterableSource(A.items)
+    cnt = [0]; lam = []
+
+    def f(): cnt[0] += 1; return cnt[0]
+
+    def g(x): lam.append(x); return len(lam)
+    lsrc = LambdaSource(f); lsink = LambdaSink(g); con = ConsoleSink(); buf = io.StringIO()
+    hist = " ".join(s["op"] for s in j["steps"])
+    rep = dict(history=hist, behaviour=j)
+    for k, st in enumerate(j["steps"]):
+        op = st["op"]; where = "step %d %s of [%s]" % (k + 1, op, hist)
+        try:
+            res = None
+            if op == "write": r = A.write(py(st["arg"])); ok = r is None
+            elif op == "write_each": r = B.write(py(st["arg"])); ok = r is None
+            elif op == "read_list": r = ls.read(); ok = r is A.items and ls.items is A.items and same(r, [py(x) for x in st["res"]])
+            elif op == "read_iter": r = list(its.read()); ok = same(r, [py(x) for x in st["res"]])
+            elif op == "lambda_read": r = lsrc.read(); ok = same(r, py(st["res"]))
+            elif op == "lambda_write": r = lsink.write(py(st["arg"])); ok = same(r, py(st["res"]))
+            elif op == "console":
+                with contextlib.redirect_stdout(buf): r = con.write({"int": 7, "str": "ab", "list": [1, 2], "none": None}[st["arg"]])
+                ok = r is None
+            elif op == "null_write": r = NullSink().write([1, 2, 3]); ok = r is None
+            elif op == "null_read": r = NullSource().read(); ok = list(r) == []
+            elif op == "identity_read":
+                item = [1, 2]; s1 = IdentitySource(item); s2 = IdentitySource(item, params={"a": 1})
+                r = s1.read(); ok = r is item and s1.read() is item and s1.params == {} and s2.params == {"a": 1} and s2.read() is item
+        except Exception as e:
+            ctx.violation("list:%s:raises" % op, "%s raised %s: %s" % (where, type(e).__name__, e), rep); return False
+        if not ok:
+            ctx.violation("list:%s:result" % op, "%s gave %r, expected %r" % (where, r, st["res"]), rep); return False
+        if B.items is not A.items or not same(A.items, [py(x) for x in st["lst"]]):
+            ctx.violation("list:%s:items" % op, "%s: the list holds %r, expected %r" % (where, A.items, [py(x) for x in st["lst"]]), rep); return False
+        if not same(lam, [py(x) for x in st["lam"]]) or buf.getvalue() != "".join(l + "\n" for l in st["out"]):
+            ctx.violation("list:%s:side-effects" % op, "%s: the lambda sink received %r, the console %r; expected %r, %r" % (where, lam, buf.getvalue(), st["lam"], st["out"]), rep); return False
+    return True
+
+
+def replay_table(ctx, j, idx):
+    from coba.pipes import UrlSource, HttpSource, DiskSource, Insert, Identity, Default, Flatten, Structure
+    from coba.exceptions import CobaException
+    fam = j["fam"]; rep = dict(case=j)
+    try:
+        if fam == "url":
+            url = j["inp"]; want = j["out"]
+            try: u = UrlSource(url); got = ("http", u._source._url) if isinstance(u._source, HttpSource) else ("disk", u._source._path) if isinstance(u._source, DiskSource) else ("?", repr(u._source))
+            except CobaException: got = ("error", "")
+            if got != (want["route"], want["arg"]):
+                ctx.violation("url:route", "UrlSource(%r) -> %r, expected %r" % (url, got, (want["route"], want["arg"])), rep); return False
+            return True
+        if fam == "insert":
+            ins = [py(x) for x in j["inp"]["ins"]]; items = [py(x) for x in j["inp"]["items"]]; want = py(j["out"])
+            f = Insert(ins)
+            for given in (items, iter(items), tuple(items)):
+                got = list(f.filter(given))
+                if not same(got, want): ctx.violation("insert:result", "Insert(%r).filter(%r) -> %r, expected %r" % (ins, items, got, want), rep); return False
+            for x in (items, want, None, 3):
+                if Identity().filter(x) is not x: ctx.violation("identity:result", "Identity().filter(x) is not x", rep); return False
+            return True
+        if fam == "default":
+            defs = {py(k): py(v) for k, v in j["inp"]["defs"]}; rows = [py(r) for r in j["inp"]["rows"]]; want = py(j["out"])
+            f = Default(defs); keep = json.dumps(rows, sort_keys=True)
+            got = list(f.filter(rows)); got2 = list(f.filter(iter([py(r) for r in j["inp"]["rows"]])))
+            if not same(got, want) or not same(got2, want):
+                ctx.violation("default:result", "Default(%r).filter(%r) -> %r, expected %r" % (defs, rows, got, want), rep); return False
+            if json.dumps(rows, sort_keys=True) != keep:
+                ctx.violation("default:mutates-input", "Default(%r).filter changed the rows it was given: %r" % (defs, rows), rep); return False
+            return True
+        if fam == "flatten":
+            rows = py(j["inp"]); want = py(j["out"]); f = Flatten()
+            got = list(f.filter(rows)); got2 = list(f.filter(iter(py(j["inp"])))); got3 = list(Flatten().filter(py(j["inp"])))
+            if not (same(got, want) and same(got2, want) and same(got3, want)):
+                ctx.violation("flatten:%s" % ("sparse" if rows and isinstance(rows[0], dict) else "dense"), "Flatten().filter(%r) -> %r, expected %r" % (rows, got if not same(got, want) else got2, want), rep); return False
+            return True
+        if fam == "structure":
+            sp = py(j["inp"]["s"]); rows = py(j["inp"]["rows"]); want = py(j["out"]); f = Structure(sp)
+            got = list(f.filter(rows)); got2 = list(f.filter(iter(py(j["inp"]["rows"]))))
+            if not (same(got, want) and same(got2, want)):
+                ctx.violation("structure:%s" % ("sparse" if rows and isinstance(rows[0], dict) else "dense"), "Structure(%r).filter(%r) -> %r, expected %r" % (sp, py(j["inp"]["rows"]), got, want), rep); return False
+            return True
+    except Exception as e:
+        ctx.violation("%s:raises" % fam, "%s case %r raised %s: %s" % (fam, j["inp"], type(e).__name__, e), rep); return False
+    raise AssertionError(fam)
+
+
 # ------------------------------------------------------------------ the check
 def join_configs(ctx):
     q = ctx.quick
@@ -267,29 +501,46 @@ JOIN_GUARDS = [("ends_only", "join looks at its first and last argument only", {
                ("noflatten", "a composite argument is kept as one stage", {"Flattened", "Associative"}),
                ("eager", "join reads its source when it is built", {"Lazy", "ExactlyOnce"}),
                ("reversed", "a composite applies its filters last to first", {"InOrder"})]
+PART_GUARDS = [("queue", "nb_poison", "a non-blocking reader stops at the poison value", {"QPoisonRule"}),
+               ("queue", "drop_on_fault", "a failing get loses the item at the head of the queue", {"QFifo"}),
+               ("disk", "w_batch", "every batch of a mode-'w' write truncates the file again", {"DWriteComplete"}),
+               ("disk", "loc_lines", "the reported location counts lines instead of bytes", {"DLocRoundTrip"}),
+               ("list", "l_extend", "the plain ListSink spreads a written list over several entries", {"LEntries"})]
+PART_ACTIONS = {"queue": ["QPut", "QOpen", "QNext", "QBreak", "QFinish"],
+                "disk": ["DWrite", "DEnter", "DExit", "DNewSink", "DRead", "DFinish"],
+                "list": ["LWrite", "LWriteEach", "LRead", "LLambdaRead", "LLambdaWrite", "LConsole", "LNulls", "LFinish"],
+                "table": ["TableNext"]}
 
 
 def run(ctx):
     rng = random.Random(ctx.seed)
     JC = join_configs(ctx)
+    qn = {"queue": ctx.pick(4, 6), "disk": ctx.pick(3, 4), "list": ctx.pick(3, 4), "table": 1}
+
+    def part_sub(part, extra=None):
+        d = {'Part = "join"': 'Part = "%s"' % part, "QN = 4": "QN = %d" % qn[part], 'Size = "quick"': 'Size = "%s"' % ctx.tier}
+        d.update(extra or {}); return d
 
     def tlc_job(job):
         name, sub, workers, cov = job
         cfg = tracecheck._cfg("PipesAlgebra.cfg", sub, ctx.scratch, "pa_%s.cfg" % name)
         return name, tlc.run("MC_PipesAlgebra", cfg, ctx.scratch, workers=workers, timeout=1500, heap="6g", coverage=cov)
     jobs = [("join-" + c["name"], c["sub"], 4, c["name"] in ("variety", "any-order")) for c in JC]
+    jobs += [("part-" + p, part_sub(p), 3 if p != "table" else 1, True) for p in ("queue", "disk", "list", "table")]
     for g, _, _ in JOIN_GUARDS:
         jobs.append(("guard-join-" + g, {'Variant = "ok"': 'Variant = "%s"' % g, "Atoms <- AtomsTyping": "Atoms <- AtomsPair", "MaxArgs = 5": "MaxArgs = 4"}, 1, False))
+    for p, g, _, _ in PART_GUARDS:
+        jobs.append(("guard-%s-%s" % (p, g), {'Part = "join"': 'Part = "%s"' % p, 'Variant = "ok"': 'Variant = "%s"' % g, "QN = 4": "QN = %d" % (4 if p == "queue" else 3)}, 1, False))
     with ThreadPoolExecutor(max_workers=3) as ex:
         results = dict(ex.map(tlc_job, jobs))
 
-    for g, what, expect in JOIN_GUARDS:
-        r = results["guard-join-" + g]
-        ctx.add_tlc("PipesAlgebra guard " + g, r)
+    for name, what, expect in [("join-" + g, w, e) for g, w, e in JOIN_GUARDS] + [("%s-%s" % (p, g), w, e) for p, g, w, e in PART_GUARDS]:
+        r = results["guard-" + name]
+        ctx.add_tlc("PipesAlgebra guard " + name, r)
         names = {v["name"] for v in r.violations}
         if not (names & expect):
-            raise RuntimeError("the broken design %r (%s) is not rejected by any of %s: the invariants are vacuous" % (g, what, sorted(expect)))
-        ctx.extra.setdefault("guards_rejected", {})[g] = sorted(names)
+            raise RuntimeError("the broken design %r (%s) is not rejected by any of %s: the invariants are vacuous" % (name, what, sorted(expect)))
+        ctx.extra.setdefault("guards_rejected", {})[name] = sorted(names)
 
     # ---- Part "join" ----
     total = 0
@@ -302,12 +553,37 @@ def run(ctx):
         progs = [j for j in r.json if isinstance(j, dict) and j.get("part") == "join"]
         progs.sort(key=lambda j: json.dumps(j["steps"], sort_keys=True))
         if len(progs) < 100: raise RuntimeError("join %s produced only %d programs" % (c["name"], len(progs)))
-        ctx.extra.setdefault("programs", {})[c["name"]] = len(progs)
+        ctx.extra.setdefault("behaviours", {})["join-" + c["name"]] = len(progs)
         for idx, j in enumerate(progs):
             ctx.case(("join", c["name"], showprog(j)))
             replay_join(ctx, c["name"], j, idx)
             total += 1
         mid = progs[len(progs) // 2]
         ctx.sample(dict(part="join", config=c["name"], program=showprog(mid), objects=[dict(kind=o["kind"], str=o["str"], params=o["params"]) for o in mid["objs"]]))
+
+    # ---- the stages ----
+    replayers = {"queue": replay_queue, "disk": replay_disk, "list": replay_list, "table": replay_table}
+    for part in ("queue", "disk", "list", "table"):
+        r = results["part-" + part]
+        ctx.add_tlc("PipesAlgebra " + part, r, required_actions=PART_ACTIONS[part])
+        for v in r.violations:
+            ctx.violation("spec:%s" % (v["name"] or v["kind"]), "PipesAlgebra.tla (%s) itself violates %s" % (part, v["name"]), v["trace"][:60])
+        beh = [j for j in r.json if isinstance(j, dict) and j.get("part") == part]
+        beh.sort(key=lambda j: json.dumps(j, sort_keys=True))
+        if len(beh) < 100: raise RuntimeError("part %s produced only %d behaviours" % (part, len(beh)))
+        ctx.extra.setdefault("behaviours", {})[part] = len(beh)
+        for idx, j in enumerate(beh):
+            ctx.case((part, json.dumps(j.get("steps", j.get("inp")), sort_keys=True), j.get("block"), j.get("pz"), j.get("gz"), j.get("mode"), j.get("batch")))
+            replayers[part](ctx, j, idx)
+            total += 1
+        mid = beh[len(beh) // 2]
+        ctx.sample({k: (v if k != "steps" else [dict(op=s["op"], arg=s.get("arg"), res=s.get("res")) for s in v]) for k, v in mid.items()}, limit=10)
     ctx.exhaustive = True
     ctx.traces += total
+    ctx.assumptions += [
+        "join: stages are not themselves iterable (a composite flattens every argument that list() accepts) and offer exactly one of read / filter / write; Foreach wraps a filter or sink and is not nested inside another Foreach",
+        "join: no params key of a stage equals another key followed by its occurrence number (f1 next to two f); where renamed keys would collide the params are not compared",
+        "join: Foreach.filter is lazy; when one stage occurs under two Foreach stages of one composite the call numbers inside the tokens are not compared (the order of the calls is not documented), the counts and the structure are",
+        "queue: EOFError / BrokenPipeError end a reader / a write silently, any other exception propagates (the repository's tests); the TypeError / AssertionError clauses of the code are not exercised; a blocking read on an empty queue is never made",
+        "disk: lines over {a, b} incl. the empty line, LF terminators only; a mode-'w' sink object opens its file once; reading is not specified while a gzip member is open; locations are byte offsets of the (decompressed) text",
+        "table: Flatten / Structure / Default on table shaped rows (every row has the cell types of the first); Structure addresses a dense row by at most one position; UrlSource is judged by the source object it builds (as the repository's tests do), nothing is fetched"]
